@@ -71,7 +71,7 @@ UNIT = Unit(
         Mutant('tail_shifted_with_forward_copy', XV, r'std::copy_backward\(thePosition, theOriginalEnd - theInsertSize, theOriginalEnd\);', 'std::copy(thePosition, theOriginalEnd - theInsertSize, thePosition + theInsertSize);', expect='std::copy precondition'),
         Mutant('source_split_past_the_range', XV, r'const const_iterator    toInsertSplit = theFirst \+ theRightSplitSize;', 'const const_iterator    toInsertSplit = theFirst + theRightSplitSize + 1;', expect=None),
     ],
-    mechanisms=['XalanVector range insert'],
+    mechanisms=['XalanVector range insert', 'vector growth, insert and erase with element shifting'],
     assumptions=['only the in-place block of insert(pos, first, last) is under contract (cut out as a block); the append branch and the reallocating branch (temporary vector + swap) are not',
                  'std::copy / std::copy_backward are stubs carrying the [alg.copy] preconditions; element values are not tracked; the source range belongs to another container; positions are element indices'],
 )
